@@ -123,6 +123,17 @@ func crashCases() []crashCase {
 			}
 			return op
 		}},
+		{"delete-multipart", true, func(m *vmodel.Model, rng *vkit.Rand, b string) *vmodel.Op {
+			// three unique part files of one store are unreferenced by a single transaction
+			op := &vmodel.Op{Kind: vmodel.OpDelete, Bucket: b, Key: "k7"}
+			if m.Buckets[b].Versioning == "Enabled" {
+				op.VersionID = vkit.Ptr(m.Buckets[b].CurrentObject("k7").ID)
+			}
+			return op
+		}},
+		{"overwrite-multipart", false, func(m *vmodel.Model, rng *vkit.Rand, b string) *vmodel.Op {
+			return &vmodel.Op{Kind: vmodel.OpPut, Bucket: b, Key: "k7", Body: body(rng, 1234)}
+		}},
 		{"delete-shared", false, func(m *vmodel.Model, rng *vkit.Rand, b string) *vmodel.Op {
 			return &vmodel.Op{Kind: vmodel.OpDelete, Bucket: b, Key: "k1"}
 		}},
@@ -151,7 +162,7 @@ func crashCases() []crashCase {
 			return &vmodel.Op{Kind: vmodel.OpAppend, Bucket: b, Key: "k2", Body: body(rng, 777)}
 		}},
 		{"multi-delete", false, func(m *vmodel.Model, rng *vkit.Rand, b string) *vmodel.Op {
-			return &vmodel.Op{Kind: vmodel.OpMultiDelete, Bucket: b, Entries: []vmodel.DelEntry{{Key: "k2"}, {Key: "k4"}}}
+			return &vmodel.Op{Kind: vmodel.OpMultiDelete, Bucket: b, Entries: []vmodel.DelEntry{{Key: "k2"}, {Key: "k4"}, {Key: "k7"}}}
 		}},
 		{"upload-part-replace", false, func(m *vmodel.Model, rng *vkit.Rand, b string) *vmodel.Op {
 			if id, u := upload(m, b, "k6"); u != nil {
@@ -191,6 +202,21 @@ func buildPreState(ctx context.Context, se *stackEnv, rng *vkit.Rand, versioned 
 		if err := run(op); err != nil {
 			return nil, "", err
 		}
+	}
+	// k7: a completed multipart object with three unique parts
+	c7 := &vmodel.Op{Kind: vmodel.OpMpuCreate, Bucket: b, Key: "k7"}
+	r7 := vmodel.Exec(ctx, se.s, c7)
+	if r7.Kind != "" {
+		return nil, "", fmt.Errorf("pre-state mpu-create k7 failed: %s", r7.ErrText)
+	}
+	m.Apply(c7, r7)
+	for pn := int32(1); pn <= 3; pn++ {
+		if err := run(&vmodel.Op{Kind: vmodel.OpMpuPart, Bucket: b, Key: "k7", UploadID: r7.UploadID, PartNumber: pn, Body: rng.Bytes(700 + int(pn))}); err != nil {
+			return nil, "", err
+		}
+	}
+	if err := run(&vmodel.Op{Kind: vmodel.OpMpuComplete, Bucket: b, Key: "k7", UploadID: r7.UploadID}); err != nil {
+		return nil, "", err
 	}
 	cr := &vmodel.Op{Kind: vmodel.OpMpuCreate, Bucket: b, Key: "k6"}
 	exp := m.Predict(cr)
@@ -274,7 +300,7 @@ func runCrash(prop, tier, replay string) {
 				if onlyCase != "" && cc.name != onlyCase {
 					continue
 				}
-				if r.Quick() && (!cc.quick || (versioned && ci%3 != 1)) {
+				if r.Quick() && (!cc.quick || (versioned && ci%4 != 1)) {
 					continue // quick tier: the core cases; versioned variant for every third case
 				}
 				label := fmt.Sprintf("%s-%v-%s", strings.NewReplacer(">", "_").Replace(stack), versioned, cc.name)
